@@ -785,8 +785,6 @@ func (f *STFS) Rename(oldname, newname string) error {
 		if err := f.removeWithoutLocking(newname); err != nil {
 			return err
 		}
-
-		return err
 	}
 
 	return f.writeOps.Move(oldname, newname)
